@@ -587,3 +587,257 @@ Theorem run_incomplete_refuted :
     static_okb c = true /\ run_guardb c evs fuel = true /\ run_completeb c evs fuel = false /\ views_differ late t evs fuel.
 Proof. exact RunConformWitness.run_incomplete_refuted. Qed.
 Print Assumptions run_incomplete_refuted.
+
+From V Require Import Serialize LegalHistBase LegalHistEntry LegalHistStep LegalHistWf RunConformInitialBase RunConformInitialWf RunConformInitialFlags
+  RunConformInitialSel RunConformInitialFlat RunConformInitialInit RunConformInitialStep RunConformInitialLoop RunConformInitialWitness RunConformInitialMain RunConformInitialCore.
+
+(* ==== documents with <initial> elements and deep / multiple 'initial' attributes (wf_initb; no <history>) ====
+
+   The theorems of the history-free core above, with LegalHistWf.wf_initb in place of wf_coreb: compound states may have
+   an <initial> child element whose transition carries executable content and names one or several proper descendants,
+   and 'initial' attributes may name deep descendants / several states in different regions of a <parallel>.
+
+   Static conditions of the microstep theorems (RunConformInitialFlat.micro_static_ib, a boolean on the flat chart):
+   wf_initb, root_compoundb, par_nonemptyb, targets_antichainb, done_okb, root_silentb (as for the core) and
+     cpl_okb           the completion of a compound state is its <initial> CHILD or consists of proper states
+     cpl_antib         no state named by an 'initial' attribute lies below another state named by the same attribute
+     targets_properb   no transition (those of <initial> elements included) targets a pseudo-state.
+   Static conditions of the run-level theorems (RunConformInitialStep.static_ib): micro_static_ib, root_unmentionedb,
+   chart_named, root_onexit_emptyb (as for the core) and
+     root_plainb       <scxml> has no <initial> child element
+     root_singleb      the 'initial' attribute of <scxml> names ONE state (which may lie arbitrarily deep).
+   Every new condition comes with a witness below that it cannot be dropped.  The dynamic guards (step_guardb,
+   run_guardb, run_completeb, unrelated_enabledb, conds_pureb, descs_okb) are those of the core theorems, unchanged.
+   Not covered: <history> (outside wf_initb); everything the core theorems do not cover either. *)
+
+(* LargeMicroStep::init flags the transitions of <history> and <initial> elements -- for EVERY document *)
+Theorem pseudo_state_transitions_are_flagged : forall late t x ti,
+  is_pseudo (fs_type (st (flatten late t) x)) = true -> In ti (fs_trans (st (flatten late t) x)) ->
+  ft_history (tr (flatten late t) ti) || ft_initial (tr (flatten late t) ti) = true.
+Proof. exact flatten_init_flags. Qed.
+Print Assumptions pseudo_state_transitions_are_flagged.
+
+(* Transition selection.  selection_conforms / selection_conforms_spec_cfg for wf_initb documents: under the same
+   guards SELECT_TRANSITIONS returns exactly Appendix D's list and leaves the execution state alone. *)
+Theorem selection_conforms_initial : forall late t0 cfg ev x h,
+  let c := flatten late t0 in
+  wf_initb c = true -> fs_type (st c 0) = FCompound -> par_nonemptyb c = true ->
+  legal_configb c cfg = true -> ascb cfg = true ->
+  unrelated_enabledb c cfg ev x = true -> conds_pureb c cfg x = true -> descs_okb c cfg ev = true ->
+  select_loop lg_fixed c cfg ev (cfg_postfix c cfg) None [] x = Spec.select_transitions c cfg h ev x.
+Proof. exact selection_conforms_initial_lemma. Qed.
+Print Assumptions selection_conforms_initial.
+
+Theorem selection_conforms_spec_cfg_initial : forall late t0 cfg' ev x h,
+  let c := flatten late t0 in let cfg := 0 :: cfg' in
+  wf_initb c = true -> fs_type (st c 0) = FCompound -> par_nonemptyb c = true -> root_unmentionedb c = true ->
+  legal_configb c cfg = true -> ascb cfg = true ->
+  unrelated_enabledb c cfg ev x = true -> conds_pureb c cfg x = true -> descs_okb c cfg ev = true ->
+  select_loop lg_fixed c cfg ev (cfg_postfix c cfg) None [] x = Spec.select_transitions c cfg' h ev x
+  /\ snd (select_loop lg_fixed c cfg ev (cfg_postfix c cfg) None [] x) = x.
+Proof. exact selection_conforms_spec_cfg_initial_lemma. Qed.
+Print Assumptions selection_conforms_spec_cfg_initial.
+
+(* (1) The entry set.  For every document satisfying micro_static_ib, every legal configuration cfg, every recorded
+   history without pseudo-states and every list sel of pairwise conflict-free transitions with active sources:
+   - Appendix D records no default history content;
+   - the states of Appendix D's computeEntrySet (addDescendantStatesToEnter / addAncestorStatesToEnter, with the
+     paths from a compound state to its deep initial targets) are exactly the PROPER states of the engine's entry set
+     (the descendant loop of ESTABLISH_ENTRYSET, which also holds <initial> pseudo-states) that do not survive the exit;
+   - for an entered state i and an <initial> child x of i: the transition of x is in the engine's transition set iff
+     i is in Appendix D's statesForDefaultEntry and x is i's completion -- the engine executes the content of exactly
+     the <initial> transitions Appendix D executes (s.initial.transition for s in statesForDefaultEntry);
+   - statesForDefaultEntry holds entered states only. *)
+Theorem entry_set_conforms_initial : forall late t0 cfg sel h hist,
+  let c := flatten late t0 in
+  micro_static_ib c = true -> legal_configb c cfg = true -> (forall x, In x hist -> pseudoS c x = false) ->
+  (forall ti, In ti sel -> In (ft_source (tr c ti)) cfg) -> pairwise_ok lg_fixed c sel ->
+  let e := Spec.compute_entry_set c h sel in
+  let r := entry_set lg_fixed c cfg (sel_exitset c cfg sel) hist (sel_targets c sel) sel in
+  Spec.e_histcontent e = [] /\
+  (forall x, In x (Spec.e_enter e) <-> In x (fst r) /\ pseudoS c x = false /\ ~ (In x cfg /\ ~ In x (sel_exitset c cfg sel))) /\
+  (forall i x ti, In i (Spec.e_enter e) -> fs_parent (st c x) = Some i -> pseudoS c x = true -> In ti (fs_trans (st c x)) ->
+     (In ti (snd r) <-> In i (Spec.e_default e) /\ fs_completion (st c i) = [x])) /\
+  (forall i, In i (Spec.e_default e) <-> In i (Spec.e_enter e) /\ In i (Spec.e_default e)).
+Proof. exact entry_set_conforms_initial_main. Qed.
+Print Assumptions entry_set_conforms_initial.
+
+(* (2) One microstep.  microstep_conforms for wf_initb documents: exit set, exit handlers, transition content,
+   entry set, entry in document order with -- per entered state -- data initialisation, onentry handlers, THEN the
+   content of the state's <initial> transition if the state is entered by default (engine: the default transitions of
+   its pseudo-state children that are in the transition set), done events.  From corresponding states the two
+   microsteps end in corresponding states with the same store, queues and trace (Appendix D appends its TCfg token). *)
+Theorem microstep_conforms_initial : forall late t0 sel l s x,
+  let c := flatten late t0 in
+  micro_static_ib c = true -> legal_configb c (l_cfg l) = true -> (forall y, In y (l_hist l) -> pseudoS c y = false) -> corr c l s ->
+  (forall ti, In ti sel -> In (ft_source (tr c ti)) (l_cfg l)) ->
+  pairwise_ok lg_fixed c sel ->
+  (forall ti, In ti sel -> ft_history (tr c ti) || ft_initial (tr c ti) = false) ->
+  let r := microstep lg_fixed ex_fixed c l (emit TMsB x) (sel_targets c sel) (sel_exitset c (l_cfg l) sel) sel false in
+  let q := Spec.spec_microstep c sel s x in
+  corr c (fst r) (fst q) /\ snd q = emit (Spec.spec_cfg_tok c (fst q)) (snd r) /\ Spec.s_hv (fst q) = Spec.s_hv s.
+Proof. exact microstep_conforms_initial_main. Qed.
+Print Assumptions microstep_conforms_initial.
+
+Theorem microstep_selected_conforms_initial : forall late t0 l s ev x0 x,
+  let c := flatten late t0 in
+  micro_static_ib c = true -> legal_configb c (l_cfg l) = true -> (forall y, In y (l_hist l) -> pseudoS c y = false) -> corr c l s ->
+  let sel := fst (select_loop lg_fixed c (l_cfg l) ev (cfg_postfix c (l_cfg l)) None [] x0) in
+  let r := microstep lg_fixed ex_fixed c l (emit TMsB x) (sel_targets c sel) (sel_exitset c (l_cfg l) sel) sel false in
+  let q := Spec.spec_microstep c sel s x in
+  corr c (fst r) (fst q) /\ snd q = emit (Spec.spec_cfg_tok c (fst q)) (snd r) /\ Spec.s_hv (fst q) = Spec.s_hv s.
+Proof. exact microstep_selected_conforms_initial_main. Qed.
+Print Assumptions microstep_selected_conforms_initial.
+
+(* selection + microstep (Large.select_and_step), under the hypotheses of selection_conforms_initial and of
+   microstep_conforms_initial *)
+Theorem step_conforms_initial : forall late t0 l s ev x,
+  let c := flatten late t0 in
+  micro_static_ib c = true -> root_unmentionedb c = true ->
+  legal_configb c (l_cfg l) = true -> ascb (l_cfg l) = true -> (forall y, In y (l_hist l) -> pseudoS c y = false) -> corr c l s ->
+  unrelated_enabledb c (l_cfg l) ev x = true -> conds_pureb c (l_cfg l) x = true -> descs_okb c (l_cfg l) ev = true ->
+  let r := select_and_step lg_fixed ex_fixed c l x ev in
+  let en := fst (Spec.select_transitions c (Spec.s_cfg s) (Spec.s_hv s) ev x) in
+  snd (Spec.select_transitions c (Spec.s_cfg s) (Spec.s_hv s) ev x) = x /\
+  match en with
+  | [] => l_cfg (fst (fst r)) = l_cfg l /\ snd (fst r) = x
+  | _ => let q := Spec.spec_microstep c en s x in
+         corr c (fst (fst r)) (fst q) /\ snd q = emit (Spec.spec_cfg_tok c (fst q)) (snd (fst r)) /\
+         Spec.s_hv (fst q) = Spec.s_hv s
+  end.
+Proof. exact step_conforms_initial_main. Qed.
+Print Assumptions step_conforms_initial.
+
+(* (3) The initial microstep (the 'initial' attribute of <scxml> may name a state at any depth: the states on the path
+   and the default descendants are entered), one call of step() with all its branches, and whole runs: the statements
+   of initial_step_conforms, large_step_conforms, run_conforms, run_conforms_prefix with static_ib for static_okb.
+   RunConformInitialStep.rsimH is RunConformStep.rsim with legality over the tree of proper states
+   (LegalHistStep.LegalCfgH) and a well-formed recorded history. *)
+Theorem initial_step_conforms_initial : forall late t0 l xl xs,
+  let c := flatten late t0 in let r := fs_sid (st c 0) in
+  static_ib c = true ->
+  is_pristine l = true -> l_cfg l = [] -> l_initd l = [] -> (forall y, In y (l_hist l) -> pseudoS c y = false) -> same_dyn xl xs ->
+  let rl := large_step lg_fixed ex_fixed c l xl in
+  let q := spec_init c xs in
+  snd rl = RC_MICROSTEPPED /\
+  corr c (fst (fst rl)) (fst q) /\ Spec.s_hv (fst q) = [] /\ same_dyn (snd (fst rl)) (snd q) /\
+  legal_configb c (l_cfg (fst (fst rl))) = true /\
+  exists d dg,
+    x_out (snd (fst rl)) = TMsE :: d ++ TEe r :: TEb r :: TMsB :: x_out xl /\
+    x_out (snd q) = Spec.spec_cfg_tok c (fst q) :: TMsE :: d ++ TDiag dg :: TMsB :: x_out xs.
+Proof. exact initial_step_conforms_initial_main. Qed.
+Print Assumptions initial_step_conforms_initial.
+
+Theorem large_step_conforms_initial : forall late t0,
+  let c := flatten late t0 in
+  static_ib c = true -> forall l xl s xs,
+  rsimH c l xl s xs -> step_guardb c l xl = true ->
+  let rl := large_step lg_fixed ex_fixed c l xl in
+  let q := spec_step c l s xs in
+  rsimH c (fst (fst rl)) (loop_toks c (fst (fst rl)) (snd rl) (snd (fst rl))) (fst q) (snd q).
+Proof. exact large_step_conforms_initial_lemma. Qed.
+Print Assumptions large_step_conforms_initial.
+
+Theorem run_conforms_initial : forall late t0,
+  let c := flatten late t0 in let r := fs_sid (st c 0) in
+  static_ib c = true -> forall evs fuel, run_guardb c evs fuel = true -> run_completeb c evs fuel = true ->
+  forall fuel', fuel <= fuel' ->
+    spec_view r (fst (run_large lg_fixed ex_fixed late t0 evs fuel)) = spec_view r (fst (run_spec late t0 evs fuel')) /\
+    snd (run_large lg_fixed ex_fixed late t0 evs fuel) = snd (run_spec late t0 evs fuel').
+Proof. exact run_conforms_initial_lemma. Qed.
+Print Assumptions run_conforms_initial.
+
+Theorem run_conforms_prefix_initial : forall late t0,
+  let c := flatten late t0 in let r := fs_sid (st c 0) in
+  static_ib c = true -> forall evs fuel, run_guardb c evs (S fuel) = true ->
+  exists k, k <= fuel /\
+    let res := run_loop c lstate (large_step lg_fixed ex_fixed c) l_cfg (S fuel) l_pristine x_init evs in
+    let sp := Spec.spec_loop c k (fst (spec_init c x_init)) (snd (spec_init c x_init)) evs in
+    let xs' := if l_fin (fst res) then Spec.exit_interpreter c (fst sp) (snd sp) else snd sp in
+    corr c (fst res) (fst sp) /\ x_store (snd res) = x_store xs' /\
+    spec_view r (rev (x_out (snd res))) = spec_view r (rev (x_out xs')).
+Proof. exact run_conforms_prefix_initial_lemma. Qed.
+Print Assumptions run_conforms_prefix_initial.
+
+(* (6) the hypotheses are satisfiable by a whole non-trivial run that is OUTSIDE the core (wf_coreb false): a deep
+   two-state 'initial' attribute into the two regions of a <parallel>, two <initial> elements with content (log +
+   assign; raise), one of them with a target two levels down, a condition with In(), a top-level <final>; events f, e
+   and the raised g; four microsteps, completion *)
+Theorem run_conforms_initial_hypotheses_satisfiable :
+  let c := flatten false iw_tree in
+  static_ib c = true /\ wf_coreb c = false /\ run_guardb c iw_evs 40 = true /\ run_completeb c iw_evs 40 = true /\
+  count_ms (fst (run_large lg_fixed ex_fixed false iw_tree iw_evs 40)) = 4 /\
+  snd (run_large lg_fixed ex_fixed false iw_tree iw_evs 40) = [(1%N, 1%Z)].
+Proof. exact run_conforms_initial_nonvacuous. Qed.
+Print Assumptions run_conforms_initial_hypotheses_satisfiable.
+
+(* (4) none of the new conditions can be dropped (witnesses by computation; all other static conditions, the run
+   guard and completeness hold; static_i_parts_of lists wf_initb, root_compoundb, par_nonemptyb, targets_antichainb,
+   done_okb, root_silentb, (cpl_okb, cpl_antib, targets_properb), (root_unmentionedb, chart_named,
+   root_onexit_emptyb), (root_plainb, root_singleb)) *)
+(* <scxml initial="s3 s6">, s6 not the default of its region.  NOTE: here the ENGINE does what Appendix D prescribes
+   (theorem initial_step_conforms_appendixD below); Spec.spec_run interleaves addDescendantStatesToEnter and
+   addAncestorStatesToEnter per target and enters both s5 and s6 -- a deviation of the transliteration Spec.v from
+   the Recommendation, not of the implementation *)
+Theorem run_root_single_refuted :
+  exists late t evs fuel, let c := flatten late t in
+    static_i_parts_of c = (true, true, true, true, true, true, (true, true, true), (true, true, true), (true, false)) /\
+    run_guardb c evs fuel = true /\ run_completeb c evs fuel = true /\ views_differ late t evs fuel.
+Proof. exact RunConformInitialWitness.run_root_single_refuted. Qed.
+Print Assumptions run_root_single_refuted.
+
+(* an <initial> element below <scxml> (the schema has none there): the engine runs its transition, Appendix D does not *)
+Theorem run_root_initial_element_refuted :
+  exists late t evs fuel, let c := flatten late t in
+    static_i_parts_of c = (true, true, true, true, true, true, (true, true, true), (true, true, true), (false, true)) /\
+    run_guardb c evs fuel = true /\ run_completeb c evs fuel = true /\ views_differ late t evs fuel.
+Proof. exact RunConformInitialWitness.run_root_initial_element_refuted. Qed.
+Print Assumptions run_root_initial_element_refuted.
+
+(* initial="s2 s5" with s5 below s2: Appendix D also enters the default descendants of s2 *)
+Theorem run_initial_attribute_antichain_refuted :
+  exists late t evs fuel, let c := flatten late t in
+    static_i_parts_of c = (true, true, true, true, true, true, (true, false, true), (true, true, true), (true, true)) /\
+    run_guardb c evs fuel = true /\ run_completeb c evs fuel = true /\ views_differ late t evs fuel.
+Proof. exact RunConformInitialWitness.run_initial_attribute_antichain_refuted. Qed.
+Print Assumptions run_initial_attribute_antichain_refuted.
+
+(* an 'initial' attribute that names the <initial> element of a child state: the element's transition runs after the
+   onentry of a different state in the two *)
+Theorem run_initial_attribute_names_initial_refuted :
+  exists late t evs fuel, let c := flatten late t in
+    static_i_parts_of c = (true, true, true, true, true, true, (false, true, true), (true, true, true), (true, true)) /\
+    run_guardb c evs fuel = true /\ run_completeb c evs fuel = true /\ views_differ late t evs fuel.
+Proof. exact RunConformInitialWitness.run_initial_attribute_names_initial_refuted. Qed.
+Print Assumptions run_initial_attribute_names_initial_refuted.
+
+(* a transition whose target is an <initial> element *)
+Theorem run_target_initial_element_refuted :
+  exists late t evs fuel, let c := flatten late t in
+    static_i_parts_of c = (true, true, true, true, true, true, (true, true, false), (true, true, true), (true, true)) /\
+    run_guardb c evs fuel = true /\ run_completeb c evs fuel = true /\ views_differ late t evs fuel.
+Proof. exact RunConformInitialWitness.run_target_initial_element_refuted. Qed.
+Print Assumptions run_target_initial_element_refuted.
+
+(* <scxml initial="..."> with SEVERAL targets: the engine's initial step against Appendix D's own order
+   (RunConformInitialInit.appendixD_init_eset: the descendants of all targets of the document's initial transition
+   first, then their ancestors; spec_init_e is spec_init with that entry set).  No root_singleb. *)
+Theorem initial_step_conforms_appendixD : forall late t0 l xl xs,
+  let c := flatten late t0 in let r := fs_sid (st c 0) in
+  micro_static_ib c = true -> chart_named c = true -> root_plainb c = true -> ascb (fs_completion (st c 0)) = true ->
+  is_pristine l = true -> l_cfg l = [] -> l_initd l = [] -> HistOK c (l_hist l) -> same_dyn xl xs ->
+  let rl := large_step lg_fixed ex_fixed c l xl in
+  let q := spec_init_e c (appendixD_init_eset c) xs in
+  snd rl = RC_MICROSTEPPED /\
+  corr c (fst (fst rl)) (fst q) /\ Spec.s_hv (fst q) = [] /\ same_dyn (snd (fst rl)) (snd q) /\
+  exists d dg,
+    x_out (snd (fst rl)) = TMsE :: d ++ TEe r :: TEb r :: TMsB :: x_out xl /\
+    x_out (snd q) = Spec.spec_cfg_tok c (fst q) :: TMsE :: d ++ TDiag dg :: TMsB :: x_out xs.
+Proof. exact initial_step_conforms_appendixD_lemma. Qed.
+Print Assumptions initial_step_conforms_appendixD.
+
+(* the new static conditions hold for every chart that satisfies the conditions of the core theorems: the theorems
+   for wf_initb subsume those for wf_coreb *)
+Theorem core_static_conditions_imply_initial_ones : forall c, static_okb c = true -> static_ib c = true.
+Proof. exact static_okb_static_ib. Qed.
+Print Assumptions core_static_conditions_imply_initial_ones.
